@@ -18,9 +18,102 @@ use rustc_driver::Compilation;
 use rustc_hir::def::DefKind;
 use rustc_hir::def_id::{DefId, LocalDefId};
 use rustc_middle::mir::{self, Body, Operand, Place, Rvalue, StatementKind, TerminatorKind};
-use rustc_middle::ty::print::{with_no_trimmed_paths, with_resolve_crate_name, PrintTraitRefExt};
+use rustc_middle::ty::print::{with_no_trimmed_paths, with_no_visible_paths, with_resolve_crate_name, PrintTraitRefExt};
 use rustc_middle::ty::{self, Instance, Ty, TyCtxt, TypingEnv};
 use rustc_span::Span;
+
+macro_rules! canon {
+    ($e:expr) => {
+        canon_std(with_no_visible_paths!(with_resolve_crate_name!(with_no_trimmed_paths!($e))))
+    };
+}
+
+/// Definition paths of std items are printed by their defining (private) module; map
+/// them to the conventional public `std::` spelling so rules do not depend on std's
+/// internal module layout.
+fn canon_std(s: String) -> String {
+    if !(s.contains("core::") || s.contains("alloc::") || s.contains("std::")) {
+        return s;
+    }
+    const EXACT: &[(&str, &str)] = &[
+        ("alloc::collections::btree::map::BTreeMap", "std::collections::BTreeMap"),
+        ("alloc::collections::btree::set::BTreeSet", "std::collections::BTreeSet"),
+        ("alloc::collections::btree::map::", "std::collections::btree_map::"),
+        ("alloc::collections::btree::set::", "std::collections::btree_set::"),
+        ("alloc::collections::vec_deque::VecDeque", "std::collections::VecDeque"),
+        ("alloc::collections::binary_heap::BinaryHeap", "std::collections::BinaryHeap"),
+        ("std::collections::hash::map::HashMap", "std::collections::HashMap"),
+        ("std::collections::hash::set::HashSet", "std::collections::HashSet"),
+        ("std::collections::hash::map::", "std::collections::hash_map::"),
+        ("std::collections::hash::set::", "std::collections::hash_set::"),
+        ("std::sync::poison::mutex::", "std::sync::"),
+        ("std::sync::poison::rwlock::", "std::sync::"),
+        ("std::sync::poison::condvar::", "std::sync::"),
+        ("std::sync::poison::once::", "std::sync::"),
+        ("std::sync::poison::", "std::sync::"),
+        ("std::sync::once_lock::", "std::sync::"),
+        ("std::sync::lazy_lock::", "std::sync::"),
+        ("std::sync::barrier::", "std::sync::"),
+        ("alloc::vec::into_iter::", "alloc::vec::"),
+        ("alloc::vec::drain::", "alloc::vec::"),
+        ("core::slice::iter::Iter", "core::slice::Iter"),
+        ("core::iter::traits::iterator::", "core::iter::"),
+        ("core::iter::traits::collect::", "core::iter::"),
+        ("core::iter::traits::accum::", "core::iter::"),
+        ("core::iter::traits::double_ended::", "core::iter::"),
+        ("core::iter::traits::exact_size::", "core::iter::"),
+        ("core::ops::deref::", "core::ops::"),
+        ("core::ops::index::", "core::ops::"),
+        ("core::ops::arith::", "core::ops::"),
+        ("core::ops::bit::", "core::ops::"),
+        ("core::ops::function::", "core::ops::"),
+        ("core::ops::try_trait::", "core::ops::"),
+        ("core::ops::range::", "core::ops::"),
+        ("core::ops::control_flow::", "core::ops::"),
+        ("core::ops::drop::", "core::ops::"),
+        ("core::convert::num::ptr_try_from_impls::", "core::convert::num::"),
+        ("core::sync::atomic::", "std::sync::atomic::"),
+    ];
+    let mut s = s;
+    for (a, b) in EXACT {
+        if s.contains(a) {
+            s = s.replace(a, b);
+        }
+    }
+    // drop the private module segment of iterator adapters / sources
+    for pre in ["core::iter::adapters::", "core::iter::sources::"] {
+        while let Some(i) = s.find(pre) {
+            let rest = &s[i + pre.len()..];
+            if let Some(j) = rest.find("::") {
+                let seg = &rest[..j];
+                if seg.chars().all(|c| c.is_ascii_lowercase() || c == '_') {
+                    s = format!("{}core::iter::{}", &s[..i], &rest[j + 2..]);
+                    continue;
+                }
+            }
+            s = format!("{}core::iter::{}", &s[..i], rest);
+        }
+    }
+    // crate roots core / alloc -> std
+    let mut out = String::with_capacity(s.len());
+    let b = s.as_bytes();
+    let mut i = 0;
+    while i < b.len() {
+        let at_boundary = i == 0 || !(b[i - 1].is_ascii_alphanumeric() || b[i - 1] == b'_' || b[i - 1] == b':');
+        if at_boundary && s[i..].starts_with("core::") {
+            out.push_str("std::");
+            i += 6;
+        } else if at_boundary && s[i..].starts_with("alloc::") {
+            out.push_str("std::");
+            i += 7;
+        } else {
+            let ch = s[i..].chars().next().unwrap();
+            out.push(ch);
+            i += ch.len_utf8();
+        }
+    }
+    out
+}
 
 struct Cb {
     args: Vec<String>,
@@ -31,15 +124,15 @@ fn jstr(s: impl Into<String>) -> J {
 }
 
 fn full_path(tcx: TyCtxt<'_>, did: DefId) -> String {
-    with_resolve_crate_name!(with_no_trimmed_paths!(tcx.def_path_str(did)))
+    canon!(tcx.def_path_str(did))
 }
 
 fn full_path_args<'tcx>(tcx: TyCtxt<'tcx>, did: DefId, args: ty::GenericArgsRef<'tcx>) -> String {
-    with_resolve_crate_name!(with_no_trimmed_paths!(tcx.def_path_str_with_args(did, args)))
+    canon!(tcx.def_path_str_with_args(did, args))
 }
 
 fn ty_str(t: Ty<'_>) -> String {
-    with_resolve_crate_name!(with_no_trimmed_paths!(t.to_string()))
+    canon!(t.to_string())
 }
 
 struct Cx<'tcx> {
@@ -318,7 +411,7 @@ impl<'tcx> Cx<'tcx> {
                 f.push(("callee_crate", jstr(tcx.crate_name(did.krate).to_string())));
                 f.push((
                     "gargs",
-                    J::Arr(args.iter().map(|a| jstr(with_resolve_crate_name!(with_no_trimmed_paths!(a.to_string())))).collect()),
+                    J::Arr(args.iter().map(|a| jstr(canon!(a.to_string()))).collect()),
                 ));
                 // trait method?
                 if let Some(tr) = tcx.trait_of_assoc(*did) {
@@ -582,7 +675,7 @@ impl rustc_driver::Callbacks for Cb {
                     f.push(("impl_self", jstr(ty_str(tcx.type_of(parent).instantiate_identity().skip_norm_wip()))));
                     if of_trait {
                         let tr = tcx.impl_trait_ref(parent).instantiate_identity().skip_norm_wip();
-                        f.push(("impl_trait", jstr(with_resolve_crate_name!(with_no_trimmed_paths!(tr.print_only_trait_path().to_string())))));
+                        f.push(("impl_trait", jstr(canon!(tr.print_only_trait_path().to_string()))));
                         f.push(("impl_trait_def", jstr(full_path(tcx, tr.def_id))));
                     }
                 } else if let DefKind::Trait = tcx.def_kind(parent) {
@@ -658,7 +751,7 @@ impl rustc_driver::Callbacks for Cb {
                     ];
                     if of_trait {
                         let tr = tcx.impl_trait_ref(did).instantiate_identity().skip_norm_wip();
-                        f.push(("trait", jstr(with_resolve_crate_name!(with_no_trimmed_paths!(tr.print_only_trait_path().to_string())))));
+                        f.push(("trait", jstr(canon!(tr.print_only_trait_path().to_string()))));
                         f.push(("trait_def", jstr(full_path(tcx, tr.def_id))));
                         let header = tcx.impl_trait_header(did);
                         f.push(("unsafe_impl", J::Bool(!header.safety.is_safe())));
